@@ -2,6 +2,9 @@
 //! oracle directly on the implementation, and writes cases.txt / impl.txt / stats.json for the
 //! correspondence with the extracted Coq model.  Usage: vharness <prop> --tier T --seed N --out DIR
 mod common;
+mod gen;
+mod net;
+mod netprops;
 mod c13;
 
 use common::Args;
@@ -23,6 +26,10 @@ fn main() {
     }
     match argv[1].as_str() {
         "c13" => c13::run(&a),
+        "c05" => netprops::run_c05(&a),
+        "c06" => netprops::run_c06(&a),
+        "c07" => netprops::run_c07(&a),
+        "c09" => netprops::run_c09(&a),
         p => { eprintln!("unknown property {p}"); std::process::exit(2); },
     }
 }
